@@ -73,7 +73,8 @@ VARIABLES
   prev,    \* status it replaced
   shc,     \* shutdown's closer for the connection: "none" | "spawned" | "done"
   shut,    \* "no" | "begun" | "done"
-  win,     \* shutdown began while the reader was between authentication and hub registration
+  win,     \* where shutdown found the connection: "ac" reader between authentication and hub registration,
+           \* "cn" reader inside OnConnect with a close() of the connection already blocked behind it, else "no"
   cbdone,  \* length of cb[c] when shutdown completed
   pushed,  \* pushes the environment sent to the connection (C11)
   nenv,
@@ -87,7 +88,7 @@ Upd(f, c, v) == [f EXCEPT ![c] = v]
 Init ==
   /\ st = [c \in Conns |-> "absent"] /\ auth = [c \in Conns |-> FALSE] /\ hub = [c \in Conns |-> FALSE]
   /\ rd = [c \in Conns |-> "idle"] /\ tk = [c \in Conns |-> "idle"] /\ tmr = [c \in Conns |-> "none"]
-  /\ expv = [c \in Conns |-> FALSE] /\ win = [c \in Conns |-> FALSE]
+  /\ expv = [c \in Conns |-> FALSE] /\ win = [c \in Conns |-> "no"]
   /\ sub = [c \in Conns |-> "none"] /\ spawned = [c \in Conns |-> <<>>]
   /\ cl = [c \in Conns |-> "none"] /\ who = [c \in Conns |-> 0] /\ prev = [c \in Conns |-> "absent"]
   /\ shc = [c \in Conns |-> "none"] /\ shut = "no" /\ cbdone = [c \in Conns |-> 0]
@@ -289,11 +290,13 @@ CloseXmit(c) ==
 
 (* ---- node shutdown ---- *)
 ShutBegin ==
-  /\ shut = "no" /\ \A c \in Conns : hub[c] => MaySpawn(c)
+  \* Shutdown's close() of a connection WAITS for a close() that is already in flight (blocked on connectMu behind a
+  \* reader inside OnConnect): both wait there, whichever gets the lock closes, the other finds the connection closed
+  /\ shut = "no" /\ \A c \in Conns : hub[c] => (Urgent => (rd[c] = "cn" => Len(spawned[c]) <= 1))
   /\ shut' = "begun"
   /\ spawned' = [c \in Conns |-> IF hub[c] THEN Append(spawned[c], Shutdown) ELSE spawned[c]]
   /\ shc' = [c \in Conns |-> IF hub[c] THEN "spawned" ELSE "none"]
-  /\ win' = [c \in Conns |-> rd[c] = "ac"]
+  /\ win' = [c \in Conns |-> IF rd[c] = "ac" THEN "ac" ELSE IF rd[c] = "cn" /\ spawned[c] # <<>> THEN "cn" ELSE "no"]
   /\ step' = [act |-> "ShutBegin"]
   /\ UNCHANGED <<st, auth, hub, rd, tk, tmr, expv, sub, cl, who, prev, cbdone, pushed, nenv, out, cb>>
 
@@ -386,13 +389,15 @@ C11_First == \A c \in Conns : out[c] # <<>> => out[c][1].t \in {"connect", "disc
 
 \* witness predicates (negated scenarios: TLC's counterexample is the schedule replayed on every run)
 \* Node.Shutdown begins while the connect command is still inside OnConnecting (or earlier) ...
-Wit1 == ~(shut = "done" /\ \E c \in Conns : ~win[c] /\ st[c] = "connected" /\ rd[c] = "up")
-Wit2 == ~(shut = "done" /\ \E c \in Conns : ~win[c] /\ rd[c] = "up" /\ \E i \in (cbdone[c] + 1)..Len(cb[c]) : cb[c][i] = "connect")
+Wit1 == ~(shut = "done" /\ \E c \in Conns : win[c] # "ac" /\ st[c] = "connected" /\ rd[c] = "up")
+Wit2 == ~(shut = "done" /\ \E c \in Conns : win[c] # "ac" /\ rd[c] = "up" /\ \E i \in (cbdone[c] + 1)..Len(cb[c]) : cb[c][i] = "connect")
 \* ... or while the connect command is between its authentication step and the hub registration: the connection is
 \* neither in Shutdown's hub snapshot nor (with a shutdown check placed before the registration) refused; it
 \* completes its handshake while Shutdown runs (Wit3) / after Shutdown returned (Wit4)
-Wit3 == ~(shut = "done" /\ \E c \in Conns : win[c] /\ st[c] = "connected" /\ rd[c] = "up" /\ \E i \in 1..cbdone[c] : cb[c][i] = "connect")
-Wit4 == ~(shut = "done" /\ \E c \in Conns : win[c] /\ rd[c] = "up" /\ \E i \in (cbdone[c] + 1)..Len(cb[c]) : cb[c][i] = "connect")
+Wit3 == ~(shut = "done" /\ \E c \in Conns : win[c] = "ac" /\ st[c] = "connected" /\ rd[c] = "up" /\ \E i \in 1..cbdone[c] : cb[c][i] = "connect")
+Wit4 == ~(shut = "done" /\ \E c \in Conns : win[c] = "ac" /\ rd[c] = "up" /\ \E i \in (cbdone[c] + 1)..Len(cb[c]) : cb[c][i] = "connect")
+\* Node.Shutdown is called while a close() of a connection is blocked behind its reader inside OnConnect, and returns
+Wit5 == ~(shut = "done" /\ \E c \in Conns : win[c] = "cn")
 WitPushSend == ~(step.act = "Push" /\ step.kind = "send" /\ step.window)
 WitPushPub  == ~(step.act = "Push" /\ step.kind = "pub" /\ step.window)
 WitPushHpubA == ~(step.act = "Push" /\ step.kind = "hpub" /\ step.ch = "a" /\ step.window)
